@@ -4,7 +4,7 @@ EXTENDS AV1, TraceIO
 VARIABLES l, st
 PayloadReason(e) ==
   IF e.res # "ok" THEN "payload_panic"
-  ELSE IF e.stream # Stream(e.obus) THEN "oracle_stream"
+  ELSE IF LET r == ReadStream(e.stream, 1, <<>>) IN ~r.ok \/ r.obus # e.obus THEN "oracle_stream"
   ELSE LET a == AggregationReason(e.obus, e.mtu, e.frags) IN
     IF a # "" THEN a
     ELSE IF e.dep_res # "ok" THEN "depacketizer_rejects_payloader_output"
